@@ -131,6 +131,14 @@ PLANS.update({
         "quick": [J("c19", "x", 32, per_process=2)] + [J("puppet", "d15", 160, per_process=8), J("puppet", "rand", 320, per_process=10)] + cluster_mix(32),
         "thorough": [J("c19", "x", 1024, per_process=8, streams=100)] + [J("puppet", "d15", 8000, per_process=20), J("puppet", "rand", 20000, per_process=20)] + cluster_mix(1000),
     },
+    "C14": {
+        "level": "fault_enumeration",
+        "rule": "a real ReliableSender and a harness peer on the simulated network; 10 base scenarios (1..8 messages, burst or spaced) x every single fault point (first 1..5 connects refused; connection cut before / inside / after every frame in either direction; peer restart at 5 instants; handle dropped while disconnected; peer that stops acknowledging) enumerated completely, then random multi-fault scenarios (up to 12 messages, refused connects, cuts, restarts, per-frame chaos, drops, delayed or missing acknowledgements); a case class is one enumerated fault point, or the fault-kind combination of a random scenario",
+        "assumptions": ["acknowledgements are paired with frames by position on a connection (the protocol has no message ids)", "300 virtual seconds of fault-free network at the end of every scenario (> maximum back-off)"],
+        "exhaustive_key": "C14.fault_points_enumerated",
+        "quick": [dict(J("c14", "enum", 1, per_process=1, shards=16, shard=k), fixed_seed=7) for k in range(16)] + [J("c14", "rand", 256, per_process=8, scenarios=60)],
+        "thorough": [dict(J("c14", "enum", 1, per_process=1, shards=16, shard=k), fixed_seed=7) for k in range(16)] + [J("c14", "rand", 2048, per_process=16, scenarios=100)],
+    },
     "C16": {
         "level": "exploration",
         "rule": "many short histories (2..12 tasks x 3..8 operations on 1..3 keys, unique written values, notify_reads before / after / concurrent with the first write) against a real RocksDB-backed Store under two schedulers (4-thread runtime in real time; single thread with random yields); call and return of every operation stamped from one atomic counter at the handle boundary; per-key Wing-Gong-Lowe linearizability search against a register-with-waiters model, necessary-condition checks, lost-wake-up check at quiescence, reopen read-back; non-trivial = >= 2 tasks writing one key and a waiter registered before the first write; distinct = distinct observed read/wake value sequences",
@@ -158,6 +166,7 @@ def nontrivial(pid, res, sits):
 
 # Coverage floors: (counter or situation, minimum) that the unchanged tree meets deterministically.
 FLOORS = {
+    "C14": {"quick": {"C14.fault_points_enumerated": 300, "C14.retransmissions_received": 500, "C14.drops_while_disconnected_checked": 20, "C14.resolutions_checked": 5000}},
     "C16": {"quick": {"C16.histories": 400, "C16.key_histories_linearizable": 500, "C16.notify_reads_completed": 1000, "C16.waiters_registered_before_first_write": 100, "C16.reopens_checked": 400}},
     "C17": {"quick": {"C17.evaluations": 1000000, "C17.distributions_checked": 10000}},
     "C18": {"quick": {"C18.cases": 20000}},
@@ -236,6 +245,9 @@ META.update({
     "C10": M("puppet + cluster", "offline pacemaker monitor over round-advance and timeout events vs. certificates held",
              "Rounds strictly increase and chain; each entry into round r+1 is preceded by a valid QC or TC of round r delivered to or assembled by the node; each timeout's high-QC is at least the QC of any block voted and any QC sent before. Runs include jumps over many rounds, TC-only advances, certificates that arrive only inside timeouts or blocks.",
              "A certificate counts as held from the moment its frame became readable by the node (permissive)."),
+    "C14": M("component", "fault enumeration on a simulated transport with an offline oracle over hand-over / drop / resolve events and the peer-side frame log",
+             "Every single fault point of the base scenarios is enumerated (exhaustive for that finite set), then multi-fault sequences are sampled. Checked: kept messages are received at least once, first receipts in hand-over order, a handle resolves only with the reply to its own message and after that reply was written, messages dropped while disconnected never go out on a later connection, nothing but handed-over messages is ever received as a complete frame.",
+             "The simulated transport models resets, refused connects and cuts at frame granularity (before / inside / after a frame); real TCP segmenting and OS errors are not exercised."),
     "C16": M("component", "linearizability checking (per-key WGL search) of histories recorded at the Store handle boundary, lost-wake-up and reopen checks",
              "Held on the recorded histories: each per-key sub-history has a linearization against the register-with-waiters model, no notify_read is left pending after a write, and reopened stores return the last value.",
              "Histories are short and sampled; true parallelism only in the 4-thread variant; cannot run under Miri (RocksDB FFI)."),
